@@ -183,7 +183,8 @@ class Quantity:
             Returns an empty quantity.
         """
         empty = cls._EMPTY_QUANTITY
-        if empty is None:
+        # (the cached instance belongs to the unit database it was created for)
+        if empty is None or empty.GetUnitDatabase() is not UnitDatabase.GetSingleton():
             empty = cls._EMPTY_QUANTITY = ObtainQuantity(OrderedDict())
         return empty
 
